@@ -248,9 +248,21 @@ var c17 = gen.Register(&gen.Check[caseC17]{
 		if gen.Chance(t, "rejected", 1, 3) {
 			c.Rejected = rapid.SampledFrom([]int{1000, 70, 3, 300}).Draw(t, "nrej")
 		}
-		c.Msg = hex.EncodeToString(gen.Bytes(0, 40).Draw(t, "msg"))
 		dl := rapid.SampledFrom([]int{16, 1, 49, 255, 256, 300}).Draw(t, "dlen")
 		c.Dst = hex.EncodeToString(rapid.SliceOfN(rapid.Byte(), dl, dl).Draw(t, "dst"))
+		ml := rapid.IntRange(0, 40).Draw(t, "mlen")
+		if gen.Chance(t, "boundaryLen", 1, 2) {
+			// total pre-image length of the first hash block chain around a power of two (fixed-size buffers end there)
+			eff := dl
+			if dl > 255 {
+				eff = 32
+			}
+			b := rapid.SampledFrom([]int{1024, 256, 512, 2048, 4096}).Draw(t, "bufSize")
+			if l := b + rapid.IntRange(-2, 2).Draw(t, "bd") - (64 + 2 + 1 + eff + 1); l >= 0 {
+				ml = l
+			}
+		}
+		c.Msg = hex.EncodeToString(gen.RandBytes(t, "msg", ml))
 		return c
 	},
 	Fixed: func() []caseC17 {
@@ -262,6 +274,10 @@ var c17 = gen.Register(&gen.Check[caseC17]{
 			{Fn: "HashToScalar", Msg: "", Dst: hex.EncodeToString(bytes.Repeat([]byte{'L'}, 300))},
 			{Fn: "HashToGroup", Msg: "616263", Dst: dst, Wrap: true},
 			{Fn: "EncodeToGroup", Msg: "616263", Dst: dst, Rejected: 1000},
+			boundaryProgram("HashToGroup", 256, 0), boundaryProgram("HashToScalar", 256, 1), boundaryProgram("EncodeToGroup", 512, 0),
+			boundaryProgram("HashToGroup", 512, 1), boundaryProgram("HashToScalar", 1024, 0), boundaryProgram("HashToGroup", 1024, 1),
+			boundaryProgram("EncodeToGroup", 2048, 0), boundaryProgram("HashToScalar", 2048, 1), boundaryProgram("HashToGroup", 4096, 0),
+			boundaryProgram("EncodeToGroup", 4096, 1),
 			{Fn: "HashToScalar", Msg: "616263", Dst: dst, Wrap: true, Imports: []string{"fmt"}},
 		}
 	},
@@ -270,3 +286,13 @@ var c17 = gen.Register(&gen.Check[caseC17]{
 })
 
 func TestC17Programs(t *testing.T) { c17.Execute(t) }
+
+// boundaryProgram hashes a message whose first-block pre-image (64 + len(msg) + 2 + 1 + len(DST) + 1 bytes) is b + d bytes long.
+func boundaryProgram(fn string, b, d int) caseC17 {
+	dst := []byte("QUUX-V01-CS02-with-secp256k1_XMD:SHA-256_SSWU_RO_")
+	msg := make([]byte, b+d-(64+2+1+len(dst)+1))
+	for i := range msg {
+		msg[i] = byte(i*7 + b)
+	}
+	return caseC17{Fn: fn, Msg: hex.EncodeToString(msg), Dst: hex.EncodeToString(dst)}
+}
